@@ -79,6 +79,33 @@ impl Spec {
         s
     }
 
+    /// one builder, two build() calls: the calls of `self`, build, then `extra`, build again
+    pub fn build_twice(&self, extra: &[Call]) -> Result<(Result<Automaton, Error>, Result<Automaton, Error>), String> {
+        catch(|| {
+            let mut b: AutomatonBuilder<u32> = AutomatonBuilder::new(&self.init);
+            let apply = |b: &mut AutomatonBuilder<u32>, c: &Call| match c {
+                Call::Trans(s, (x, y), n) => {
+                    b.add_transition(s, &CharSet::range(*x, *y), n);
+                }
+                Call::Default(s, n) => {
+                    b.set_default_successor(s, n);
+                }
+                Call::Final(s) => {
+                    b.mark_final(s);
+                }
+            };
+            for c in &self.calls {
+                apply(&mut b, c);
+            }
+            let first = b.build();
+            for c in extra {
+                apply(&mut b, c);
+            }
+            let second = b.build();
+            (first, second)
+        })
+    }
+
     pub fn build(&self) -> Result<Result<Automaton, Error>, String> {
         catch(|| {
             let mut b: AutomatonBuilder<u32> = AutomatonBuilder::new(&self.init);
@@ -116,7 +143,7 @@ pub fn state_facts(v: &StateView) -> StateFacts {
     let ivs: Vec<(u32, u32)> = v.trans.iter().map(|t| t.0).collect();
     let u = Universe::from_intervals(&ivs);
     let mut f = StateFacts::default();
-    let mut covered = 0u64;
+    let mut covered = 0u128;
     for seg in 0..u.len() {
         let c = u.segs[seg].0;
         let targets: Vec<u32> = v.trans.iter().filter(|((a, b), _)| *a <= c && c <= *b).map(|t| t.1).collect();
@@ -495,4 +522,35 @@ pub fn mutate(t: &mut Tape, spec: &mut Spec) -> Mutation {
             Mutation::NewStateOnlyAsTarget
         }
     }
+}
+
+/// calls issued after a first build(): new transitions (overlapping an existing label or not),
+/// declared or re-declared defaults, final marks
+pub fn gen_extra_calls(t: &mut Tape, spec: &Spec) -> Vec<Call> {
+    let labels = spec.labels();
+    let trans: Vec<(u32, (u32, u32), u32)> = spec.calls.iter().filter_map(|c| if let Call::Trans(s, r, n) = c { Some((*s, *r, *n)) } else { None }).collect();
+    let n = 1 + t.choose(3);
+    let mut out = Vec::new();
+    for _ in 0..n {
+        match t.weighted(&[5, 3, 1]) {
+            0 if !trans.is_empty() => {
+                let (s, (a, b), nx) = trans[t.choose(trans.len())];
+                let (x, y) = match t.choose(4) {
+                    0 => (a, a),
+                    1 => (b, b),
+                    2 => (a + (b - a) / 2, b),
+                    _ => (a, (b + 1).min(MAX)),
+                };
+                let target = if t.flag() { nx } else { labels[t.choose(labels.len())] };
+                out.push(Call::Trans(s, (x, y), target));
+            }
+            1 => {
+                let s = labels[t.choose(labels.len())];
+                let d = labels[t.choose(labels.len())];
+                out.push(Call::Default(s, d));
+            }
+            _ => out.push(Call::Final(labels[t.choose(labels.len())])),
+        }
+    }
+    out
 }
